@@ -31,11 +31,11 @@ def row_of(v):
 
 
 def run(ctx):
-    ctx.extra["rule"] = ("file sets written from the bundled vendor templates with per-cell tagged values (Silixa double-ended xml, Sensortran binary, Sensornet .ddf with Oryx and with "
+    ctx.extra["rule"] = ("file sets written from the bundled vendor templates with per-cell tagged values (Silixa double-ended xml through the Coq stacking model; every bundled Silixa template v4/v6/v7/v8 with 4 or 6 items; Sensortran binary, Sensornet .ddf with Oryx and with "
                          "Halo/Sentinel style names): 1-8 files, 3-40 points; every cell of st/ast/rst/rast/tmp compared with the truth table (Silixa: through Model/Readers.stackT inside "
                          "Coq); probe series aligned with the data columns; the directory listing reversed; one file with a different point count must be refused")
     ctx.trusted += ["harness vlib/props/c11.py, vlib/gen_files.py (the writer stands in for the vendors' file formats)", "XML / .ddf / binary parsing is not modelled"]
-    ctx.assumptions += ["file names follow the vendors' patterns", "AP Sensing files are not synthesised (covered by the repository's own reader tests only)"]
+    ctx.assumptions += ["file names follow the vendors' patterns", "AP Sensing .tra companion files are not synthesised"]
     rng = ctx.rng("c11")
     tmp = tempfile.mkdtemp(prefix="dts_c11_")
     exprs, meta = [], []
@@ -62,6 +62,56 @@ def run(ctx):
                     meta.append({**rec, "variable": name})
                 if o.get("probe1") != [1000.0 + f for f in range(n)]:
                     ctx.violation("silixa:probe-series-misaligned", f"probe1Temperature {o.get('probe1')}", rec)
+            # ---- every bundled Silixa template (xml v4 / v6 / v7 / v8; 4 or 6 recorded items)
+            for tname in gen_files.SILIXA_TEMPLATES:
+                nn, nxx = int(rng.integers(1, 7)), int(rng.integers(3, 41))
+                d = os.path.join(tmp, f"silixa_{tname}{c}")
+                dbl = tname in ("v8", "v6-double")
+                _, nitem = gen_files.silixa_files_from(tname, d, nn, nxx, [gen_files.stamp_str(base + 60 * f) for f in range(nn)], 10, 12 if dbl else None)
+                rec = {"reader": "silixa", "template": tname, "n": nn, "nx": nxx, "items": nitem}
+                ctx.case(("silixa-template", c, tname), sample=rec)
+                o = worker("silixa", d, {"load_in_memory": bool(rng.random() < 0.5)})
+                if "error" in o:
+                    ctx.violation(f"silixa:{tname}:raised", o["error"], rec)
+                    continue
+                cols = ["st", "ast", "rst", "rast", "tmp"] if nitem == 6 else ["st", "ast", "tmp"]
+                for it, name in enumerate(cols, start=1):
+                    want = np.array([[gen_files.tag(f, r, it) for f in range(nn)] for r in range(nxx)], float)
+                    if name not in o or not np.array_equal(np.array(o[name], float), want):
+                        ctx.violation(f"silixa:{tname}:{name}-misplaced", f"{name} cells are not where they were recorded", rec)
+                if not np.allclose(np.array(o["x"]), -5.0 + 0.5 * np.arange(nxx), atol=1e-9):
+                    ctx.violation(f"silixa:{tname}:x-wrong", "x is not the recorded distance column", rec)
+                if o.get("probe1") != [1000.0 + f for f in range(nn)]:
+                    ctx.violation(f"silixa:{tname}:probe-series-misaligned", f"probe1Temperature {o.get('probe1')}", rec)
+            # ---- AP Sensing .xml (LAF, TEMP, ST, AST): placement, order under a reversed creation order of the files, inconsistent lengths
+            nn, nxx = int(rng.integers(1, 7)), int(rng.integers(3, 41))
+            d = os.path.join(tmp, f"apsensing{c}")
+            stamps_ap = [gen_files.stamp_str(base + 60 * f) for f in range(nn)]
+            gen_files.apsensing_files(d, nn, nxx, stamps_ap)
+            rec = {"reader": "apsensing", "n": nn, "nx": nxx}
+            ctx.case(("apsensing", c), sample=rec)
+            o = worker("apsensing", d, {"load_in_memory": bool(rng.random() < 0.5)})
+            if "error" in o:
+                ctx.violation("apsensing:raised", o["error"], rec)
+            else:
+                for it, name in ((1, "st"), (2, "ast"), (5, "tmp")):
+                    want = np.array([[gen_files.tag(f, r, it) for f in range(nn)] for r in range(nxx)], float)
+                    if not np.array_equal(np.array(o[name], float), want):
+                        ctx.violation(f"apsensing:{name}-misplaced", f"{name} cells are not where they were recorded", rec)
+                if o["time"] != stamps_ap or not np.allclose(np.array(o["x"]), 0.5 * np.arange(nxx)):
+                    ctx.violation("apsensing:time-or-x-wrong", f"time {o['time']} / x differ from the recorded stamps / distances", rec)
+            if nn >= 2:
+                d = os.path.join(tmp, f"apsensing_bad{c}")
+                gen_files.apsensing_files(d, nn, nxx, stamps_ap)
+                gen_files.apsensing_files(os.path.join(tmp, f"apsensing_short{c}"), nn, nxx - 1, stamps_ap)
+                k = int(rng.integers(0, nn))
+                nm = sorted(os.listdir(d))[k]
+                shutil.copy(os.path.join(tmp, f"apsensing_short{c}", nm), os.path.join(d, nm))
+                rec = {"reader": "apsensing", "fault": "one file with a different point count", "n": nn, "nx": nxx, "file": k}
+                ctx.case(("apsensing-bad", c), sample=rec)
+                o = worker("apsensing", d, {"load_in_memory": True})
+                if "error" not in o:
+                    ctx.violation("apsensing:inconsistent-lengths-loaded", "a file set with differing point counts was loaded", rec)
             # ---- Sensortran
             d = os.path.join(tmp, f"sensortran{c}")
             gen_files.sensortran_files(d, n, nx)
